@@ -85,6 +85,13 @@ def produce(route, p, C, argv, workdir, n):
     raise AssertionError(route)
 
 
+class LU(tuple):
+    """(union node, its value); nullable: the union sits directly under an Optional, so a text that reads as null is
+    taken by the Optional before any member"""
+
+    nullable = False
+
+
 def descend(t, v, steps):
     """Walk the type along the value path. -> (deepest union node, its value, node at the end)."""
     node, val = t, v
@@ -102,7 +109,9 @@ def descend(t, v, steps):
             node = node.children[0]
             continue
         if node.kind == "union":
-            last_union = (node, val)
+            under_optional = last_union is not None and last_union[0].kind == "optional" and last_union[0].children[0] is node
+            last_union = LU((node, val))
+            last_union.nullable = under_optional
             node = G.owner(node, val)
             continue
         if i >= len(steps):
@@ -142,7 +151,7 @@ def single_parser(t):
     return _SINGLE[key]
 
 
-def union_ambiguous(u, v):
+def union_ambiguous(u, v, nullable=False):
     """Is the serialised form of v (as its owning member writes it) read differently by another member?
     -> 'ambiguous' | 'not-ambiguous' | 'undecided'"""
     members = u.children if u.kind == "union" else [u.children[0]]
@@ -160,8 +169,8 @@ def union_ambiguous(u, v):
     back = call(single_parser(own).parse_string, text)
     if not back.accepted or same(back.value.k, v):
         return "not-ambiguous"  # the owner alone does not round trip: a defect of that member type
-    if u.kind == "optional":
-        # Optional[M]: the only other reading is null
+    if u.kind == "optional" or nullable:
+        # Optional[M]: the only other reading is null (for Optional[Union[...]] it comes before the members' readings)
         try:
             raw = json.loads(text)["k"]
             from jsonargparse._loaders_dumpers import json_or_yaml_load
@@ -170,7 +179,8 @@ def union_ambiguous(u, v):
                 return "ambiguous"  # the text of the value reads as null, which Optional takes first
         except Exception:
             pass
-        return "not-ambiguous"
+        if u.kind == "optional":
+            return "not-ambiguous"
     for m in members:
         if m is own:
             continue
@@ -295,7 +305,7 @@ def judge(ctx, route, spec, p, C0, stage, o, text, argv, dests, passed=()):
         if loc:
             key, t, v, kind, detail = loc
             lu, node = descend(t, v, detail[0] if kind == "differs" else ())
-            if kind == "differs" and lu is not None and union_ambiguous(*lu) == "ambiguous":
+            if kind == "differs" and lu is not None and union_ambiguous(*lu, nullable=getattr(lu, "nullable", False)) == "ambiguous":
                 ctx.count("ambiguous_union_not_judged")
                 return
             cls = "+".join(string_classes(v)) or (diff_class((steps_str(detail[0]), detail[1])) if kind == "differs" else "no-hostile-string")
@@ -332,7 +342,7 @@ def judge(ctx, route, spec, p, C0, stage, o, text, argv, dests, passed=()):
     v = C0[key]
     lu, node = descend(t, v, rest)
     if lu is not None:
-        amb = union_ambiguous(*lu)
+        amb = union_ambiguous(*lu, nullable=getattr(lu, "nullable", False))
         if amb == "ambiguous":
             ctx.count("ambiguous_union_not_judged")
             ctx.observe("ambiguous-union", dict(hint=t.skel, value=short(v), at=steps_str(steps)))
